@@ -9,6 +9,7 @@ import (
 	"time"
 
 	"github.com/pentops/j5/internal/bcl/internal/verif/codecx"
+	"github.com/pentops/j5/internal/bcl/internal/verif/j5ref"
 	"github.com/pentops/j5/internal/bcl/internal/verif/pgen"
 	"github.com/pentops/j5/internal/bcl/internal/verif/vf"
 	"github.com/pentops/j5/lib/j5reflect"
@@ -127,12 +128,19 @@ func checkProps(root j5schema.RootSchema, md protoreflect.MessageDescriptor) (fa
 	default:
 		return nil
 	}
-	seen := map[string]bool{}
+	seen := map[string]int{}
 	for _, p := range props {
-		if seen[p.JSONName] {
-			fails = append(fails, vf.Failf("names|duplicate", "%s: property name %q appears twice", md.FullName(), p.JSONName))
+		if prev, dup := seen[p.JSONName]; dup {
+			cause := "direct"
+			_ = prev
+			for i := 0; i < md.Fields().Len(); i++ {
+				if j5ref.IsFlatten(md.Fields().Get(i)) {
+					cause = "via-flatten" // the object has flattened members: collisions come from inlining
+				}
+			}
+			fails = append(fails, vf.Failf("names|duplicate|"+cause, "%s: property name %q appears twice", md.FullName(), p.JSONName))
 		}
-		seen[p.JSONName] = true
+		seen[p.JSONName] = len(p.ProtoField)
 		if len(p.ProtoField) == 0 {
 			if _, ok := p.Schema.(*j5schema.OneofField); !ok {
 				fails = append(fails, vf.Failf("path|empty", "%s.%s: empty proto path on a %s", md.FullName(), p.JSONName, kindOf(p.Schema)))
